@@ -72,6 +72,10 @@ def features(prog):
         feats.add("pbind=" + prog["pbind"])
     if prog.get("decoy"):
         feats.add("decoy")
+    if prog.get("strict"):
+        feats.add("strict_undefined")
+    if prog.get("via"):
+        feats.add("via=" + prog["via"])
     return feats
 
 
